@@ -256,7 +256,7 @@ impl Prop for C08Prop {
         "C08"
     }
     fn rule(&self) -> String {
-        "Streams: sigma3 = every sequence of 3 lexemes of the 109-lexeme alphabet (joined by two spaces, so the input itself is non-canonical); sigma2ws = every pair x 6 non-canonical separators x 4 configurations; random (proptest tapes) = soup / arbitrary UTF-8 / mutated seeds with generated configurations (tab_width x continuation_indents <= 255); prog = grammar-generated well-formed programs in random layouts (adds the end-of-file clause). Oracle on the output, scanned by the independent reference scanner, skipping verbatim regions (pasfmt off..on), asm instruction tokens and multi-line tokens: (1) no line ends in a blank, (2) the gap between two tokens on a line is empty or one space, (3) no two consecutive blank lines and none at the start, (4) each line's indentation is tabs only (use_tabs) or a multiple of tab_width spaces, (5) well-formed input: the output ends with exactly one configured terminator. Non-trivial = the input itself violates one of (1)-(4); distinct by hash of (input, configuration)."
+        "Streams: sigma3 = every sequence of 3 lexemes of the 109-lexeme alphabet (joined by two spaces, so the input itself is non-canonical); sigma2ws = every pair x 6 non-canonical separators x 4 configurations; random (proptest tapes) = soup / arbitrary UTF-8 / mutated seeds with generated configurations (tab_width x continuation_indents <= 255); prog = grammar-generated well-formed programs in random layouts (adds the end-of-file clause); toggled = such programs with verbatim regions and asm bodies. Oracle on the output, scanned by the independent reference scanner, skipping verbatim regions (pasfmt off..on), asm instruction tokens and multi-line tokens: (1) no line ends in a blank, (2) the gap between two tokens on a line is empty or one space, (3) no two consecutive blank lines and none at the start, (4) each line's indentation is tabs only (use_tabs) or a multiple of tab_width spaces, (5) well-formed input: the output ends with exactly one configured terminator. Non-trivial = the input itself violates one of (1)-(4); distinct by hash of (input, configuration)."
             .into()
     }
     fn assumptions(&self) -> Vec<String> {
@@ -274,11 +274,14 @@ impl Prop for C08Prop {
             Stream::random("any_chk", if q { 1000 } else { 10000 }, 400).chk(),
         ];
         v.extend(crate::props::wf::wf_streams(tier, 1));
+        // programs with verbatim regions and asm bodies (C07's generator), judged by this oracle
+        v.push(Stream::random("toggled", if q { 500 } else { 6000 }, 700));
         v
     }
     fn generate(&self, stream: &str, t: &mut Tape) -> Option<Case> {
         let stream = stream.trim_end_matches("_chk");
         match stream {
+            "toggled" => crate::props::c07::C07.generate("prog", t),
             "any" => {
                 let cfg = Cfg::gen_unsaturated(t);
                 let (input, g) = common::gen_any_input(t, 80);
@@ -339,7 +342,23 @@ impl Prop for C08Prop {
         if let Some(f) = fails.into_iter().next() {
             return Outcome::Fail(log_facts(f));
         }
-        if case.ann.is_some() {
+        // a verbatim region that is still open at the end of the file is reproduced byte for byte
+        // up to the end (C07), so the end-of-file clause cannot apply there
+        let open_region_at_eof = {
+            let toks = refscan::scan(&out);
+            let mut off = false;
+            for t in &toks {
+                if t.kind.is_comment() {
+                    match toggle::parse_toggle(t.text(&out)) {
+                        Some(false) => off = true,
+                        Some(true) => off = false,
+                        None => {}
+                    }
+                }
+            }
+            off
+        };
+        if case.ann.is_some() && !open_region_at_eof {
             // (5) end-of-file clause for well-formed input
             let nl = case.cfg.nl();
             let ok = out.ends_with(nl)
